@@ -77,5 +77,8 @@ def oas(cov: np.ndarray, n: float, D: int) -> np.ndarray:
     tr2 = tr**2
     tr_cov2 = np.trace(cov**2)
     phi = ((1 - 2 / D) * tr_cov2 + tr2) / ((n + 1 - 2 / D) * tr_cov2 - tr2 / D)
+    # the shrinkage coefficient is a convex weight: for small populations the
+    # estimate exceeds one (or its denominator turns negative) and is clipped to one
+    phi = min(1.0, phi) if phi >= 0.0 else 1.0
 
     return (1 - phi) * cov + phi * np.eye(D) * tr / D
